@@ -57,6 +57,8 @@ def shards(tier, seed):
     out.append({'name': 'props', 'what': 'props',
                 'n_random': 600 if q else 30000})
     out.append({'name': 'bits', 'what': 'bits'})
+    out.append({'name': 'frames', 'what': 'frames',
+                'n_random': 300 if q else 20000})
     if not q:
         for i in range(6):
             out.append({'name': 'prims%d' % i, 'what': 'prims-random',
@@ -121,6 +123,14 @@ def cases(shard, rnd):
                 v = {'k': v}
             yield {'t': 'prop', 'name': n, 'v': v,
                    'base': gf.props_for_mask(rnd, rnd.getrandbits(13))}
+    elif what == 'frames':
+        pool = hostile.pool()
+        for slot in FRAME_SLOTS:
+            for v in pool:
+                yield {'t': 'frame', 'slot': slot, 'v': v}
+            for _ in range(shard['n_random']):
+                yield {'t': 'frame', 'slot': slot,
+                       'v': hostile.random_hostile(rnd)}
     elif what == 'bits':
         vals = [True, False, 0, 1, 2, 3, 4, 128, 255, 256, -1, -2, None,
                 1.0, 0.0, 'x', '', [], [0], b'\x01', 2**40]
@@ -169,7 +179,10 @@ def eq10(x, got, exact_float=False):
         g = got if got.tzinfo is not None else got.replace(
             tzinfo=datetime.timezone.utc)
         gus = (g - refcodec.EPOCH) // datetime.timedelta(microseconds=1)
-        return gus % 10**6 == 0 and abs(us - gus) < 10**6
+        # whole seconds: the second the instant lies in (floor), never the
+        # next one - for an instant just below the epoch that would be a
+        # sign loss
+        return gus % 10**6 == 0 and 0 <= us - gus < 10**6
     if isinstance(x, dict):
         if any(isinstance(k, str) and len(k) > 128 for k in x):
             raise Exempt('table key longer than 128 characters')
@@ -203,6 +216,8 @@ def run_case(case, rec):
         _method(case, rec)
     elif t == 'prop':
         _prop(case, rec)
+    elif t == 'frame':
+        _frame(case, rec)
     else:
         _bit(case, rec)
 
@@ -453,6 +468,86 @@ def _prop(case, rec):
     rec.count('returned_and_equal')
 
 
+FRAME_SLOTS = ['header.weight', 'header.body_size', 'header.channel',
+               'method.channel', 'body.value', 'body.channel',
+               'protocol.major_version',
+               'protocol.minor_version', 'protocol.revision']
+
+
+def _frame(case, rec):
+    """A hostile value in one attribute of a non-method frame (or as the
+    channel): marshal raises, or the decoded frame carries that value and
+    its other attributes are untouched."""
+    from pamqp import body, commands, header, heartbeat
+    slot, v = case['slot'], case['v']
+    kind, attr = slot.split('.')
+    channel = 7
+    if kind == 'header':
+        obj = header.ContentHeader(0, 1234, commands.Basic.Properties(
+            content_type='t', priority=3))
+        exp = {'weight': 0, 'body_size': 1234, 'content_type': 't',
+               'priority': 3}
+    elif kind == 'method':
+        obj = commands.Basic.Ack(delivery_tag=99, multiple=True)
+        exp = {'delivery_tag': 99, 'multiple': True}
+    elif kind == 'body':
+        obj = body.ContentBody(b'payload')
+        exp = {'value': b'payload'}
+    elif kind == 'heartbeat':
+        obj = heartbeat.Heartbeat()
+        exp = {}
+    else:
+        obj = header.ProtocolHeader(0, 9, 1)
+        exp = {'major_version': 0, 'minor_version': 9, 'revision': 1}
+    if attr == 'channel':
+        channel = v
+    else:
+        try:
+            setattr(obj, attr, v)
+        except Exception:
+            rec.count('setattr_refused')
+            return
+        exp[attr] = v
+    m = common.lib_marshal(obj, channel)
+    if not m.ok:
+        rec.seen('encoder_raised', 'frame:' + slot)
+        rec.count('raised:' + (m.exc_type or 'budget'))
+        return
+    rec.seen('encoder_returned', 'frame:' + slot)
+    rec.nt(canon.digest((slot, v)))
+    u = common.lib_unmarshal(m.value)
+    if not u.ok:
+        rec.count('decoder_raised_on_encoder_output')
+        rec.note('frame.unmarshal raised on the marshal output for %s = %s: '
+                 '%s' % (slot, diff.bucket(v), u.describe()[:100]))
+        return
+    gch, g = u.value[1], u.value[2]
+    got = {}
+    for n in exp:
+        holder = g.properties if n in ('content_type', 'priority') else g
+        got[n] = getattr(holder, n, '<missing>')
+    if kind != 'protocol':
+        exp['channel'], got['channel'] = channel, gch
+    for n in exp:
+        ok = _safe_eq(got[n], exp[n]) and not (
+            isinstance(exp[n], float) and exp[n] != int(exp[n])) \
+            if not isinstance(exp[n], (bytes, bytearray, memoryview)) \
+            else bytes(got[n]) == bytes(exp[n])
+        if isinstance(exp[n], (str, type(None), list, dict, tuple)) and \
+                n != 'content_type':
+            ok = False            # no frame attribute here holds such a type
+        if not ok:
+            key = 'silent-frame:%s' % slot if n == attr or (
+                attr == 'channel' and n == 'channel') else \
+                'neighbour-corrupted:frame:%s' % slot
+            rec.violation(key, '%s = %s was marshalled without error; the '
+                          'decoded frame has %s = %s'
+                          % (slot, _short(v), n, _short(got[n])), case,
+                          observed=got[n], expected=exp[n])
+            return
+    rec.count('returned_and_equal')
+
+
 def _bit(case, rec):
     from pamqp import decode, encode
     v, byte, pos = case['v'], case['byte'], case['pos']
@@ -499,6 +594,10 @@ def gates(m, tier):
             if 'method:' + t not in s:
                 out.append('no method argument of wire type %s %s'
                            % (t, name))
+    for slot in FRAME_SLOTS:
+        for st, name in ((ret, 'returned'), (rai, 'raised')):
+            if 'frame:' + slot not in st:
+                out.append('marshal with hostile %s never %s' % (slot, name))
     for n in refspec.PROPERTY_NAMES:
         if 'prop:' + n not in rai:
             out.append('property %s never refused a hostile value' % n)
